@@ -266,9 +266,10 @@ class _CompxsIO(cccc.Stream):
         """Write the composition independent data block."""
         with self.createRecord() as record:
             if self._metadata["fileWideChiFlag"]:
-                self._metadata["fileWideChi"] = record.rwMatrix(
+                self._metadata["fileWideChi"] = record.rwDoubleMatrix(
                     self._metadata["fileWideChi"],
-                    (self._metadata["fileWideChiFlag"], self._metadata["numGroups"]),
+                    self._metadata["fileWideChiFlag"],
+                    self._metadata["numGroups"],
                 )
             self._rwLibraryEnergies(record)
             self._metadata["minimumNeutronEnergy"] = record.rwDouble(
@@ -286,9 +287,10 @@ class _CompxsIO(cccc.Stream):
 
     def _rwDelayedProperties(self, record, numDelayedFam):
         if numDelayedFam:
-            self._metadata["delayedChi"] = record.rwMatrix(
+            self._metadata["delayedChi"] = record.rwDoubleMatrix(
                 self._metadata["delayedChi"],
-                (self._metadata["numGroups"], numDelayedFam),
+                self._metadata["numGroups"],
+                numDelayedFam,
             )
 
             self._metadata["delayedDecayConstant"] = record.rwList(
